@@ -848,6 +848,11 @@ func (r *envelopingReader) Read(data []byte) (n int, err error) {
 	if r.err != nil {
 		return 0, r.err
 	}
+	if len(data) == 0 {
+		// Nothing can be copied: nothing may be consumed either (a read of
+		// zero bytes must not be mistaken for a drained message).
+		return 0, nil
+	}
 	// If part of the current envelope is still pending (because the previous
 	// call's buffer was too small for it), it must go out before any payload.
 	if r.envRemain == 0 {
@@ -998,6 +1003,11 @@ func (r *transformingReader) Read(data []byte) (n int, err error) {
 	defer r.mu.Unlock()
 	if r.err != nil {
 		return 0, r.err
+	}
+	if len(data) == 0 {
+		// Nothing can be copied: nothing may be consumed either (a read of
+		// zero bytes must not be mistaken for a drained message).
+		return 0, nil
 	}
 
 	for {
